@@ -1,21 +1,59 @@
-import json, os, shutil, sys, glob
-src=sys.argv[1]
-for d in sorted(glob.glob(os.path.join(src,'C*-*'))):
-    sid=os.path.basename(d)
-    cf=os.path.join(d,'confirm.json')
-    if not os.path.exists(cf): print('no confirm',sid); continue
-    c=json.load(open(cf))
-    if not c.get('confirmed'): print('NOT confirmed',sid); continue
-    dst=f'/verif/seeded/{sid}'
-    if os.path.exists(dst): print('exists',sid); continue
+"""Import confirmed candidates (maintenance helper, not a check).
+
+    /venv/bin/python -m sa.seedimport <candidate-root> [--round N]
+
+<candidate-root>/Cxx-<tag>/ with patch.diff, demo.py, meta.json and the confirm.json written by sa.seedconfirm. Breaking changes
+(confirm.json "benign": false) go to /verif/seeded/<id>, behaviour-preserving ones to /verif/benign/<id>.
+"""
+import glob
+import json
+import os
+import shutil
+import sys
+
+src = sys.argv[1]
+rnd = sys.argv[sys.argv.index("--round") + 1] if "--round" in sys.argv else "?"
+for d in sorted(glob.glob(os.path.join(src, "C*-*"))):
+    sid = os.path.basename(d)
+    cf = os.path.join(d, "confirm.json")
+    if not os.path.exists(cf):
+        print("no confirm", sid)
+        continue
+    c = json.load(open(cf))
+    if not c.get("confirmed"):
+        print("NOT confirmed", sid)
+        continue
+    benign = bool(c.get("benign"))
+    dst = f"/verif/{'benign' if benign else 'seeded'}/{sid}"
+    if os.path.exists(dst):
+        print("exists", sid)
+        continue
     os.makedirs(dst)
-    shutil.copy(os.path.join(d,'patch.diff'),dst); shutil.copy(os.path.join(d,'demo.py'),dst)
-    try: am=json.load(open(os.path.join(d,'meta.json')))
-    except Exception: am={}
-    meta={"id":sid,"property":sid.split('-')[0],"files":c.get('files'),"what":am.get('what'),"manifests_when":am.get('manifests_when'),
-      "origin":"written by an independent sub-agent that saw only the property text and a scratch worktree (nothing from /verif)",
-      "confirmed":{"how":"sa.seedconfirm: fresh scratch worktree of /repo HEAD; demo run with PYTHONPATH=<worktree>/src before and after `git apply patch.diff`; pinned suite run with the patch applied and compared with BASELINE.stable_pass",
-        "demo_exit_clean_tree":c.get('demo_clean_exit'),"demo_exit_with_patch":c.get('demo_patched_exit'),"demo_output_with_patch_tail":(c.get('demo_patched_tail') or '')[-400:],
-        "suite_with_patch":f"stable baseline tests: {c.get('suite_stable')}; still passing: {c.get('suite_still_passing')}; broken: {len(c.get('suite_broken') or [])}"}}
-    json.dump(meta,open(os.path.join(dst,'meta.json'),'w'),indent=1)
-    print('imported',sid)
+    shutil.copy(os.path.join(d, "patch.diff"), dst)
+    shutil.copy(os.path.join(d, "demo.py"), dst)
+    try:
+        am = json.load(open(os.path.join(d, "meta.json")))
+    except Exception:
+        am = {}
+    meta = {
+        "id": sid,
+        "property": sid.split("-")[0],
+        "files": c.get("files"),
+        "what": am.get("what"),
+        "manifests_when": am.get("manifests_when"),
+        "origin": "written by an independent sub-agent that saw only the property text and a scratch worktree (nothing from /verif)",
+        "confirmed": {
+            "how": "sa.seedconfirm" + (" --benign" if benign else "") + ": fresh scratch worktree of /repo HEAD; demo run with PYTHONPATH=<worktree>/src before and after `git apply patch.diff`; pinned suite run with the patch applied and compared with BASELINE.stable_pass",
+            "demo_exit_clean_tree": c.get("demo_clean_exit"),
+            "demo_exit_with_patch": c.get("demo_patched_exit"),
+            "demo_output_with_patch_tail": (c.get("demo_patched_tail") or "")[-400:],
+            "suite_with_patch": f"stable baseline tests: {c.get('suite_stable')}; still passing: {c.get('suite_still_passing')}; broken: {len(c.get('suite_broken') or [])}",
+        },
+    }
+    if benign:
+        meta["kind"] = f"benign refactoring (round {rnd}, {'small' if sid.endswith('u') else 'moderate'} size)"
+        meta["why_unchanged"] = meta.pop("manifests_when")
+    else:
+        meta["round"] = rnd
+    json.dump(meta, open(os.path.join(dst, "meta.json"), "w"), indent=1)
+    print("imported", sid, "->", dst)
